@@ -58,6 +58,9 @@ var c11Conn = []hv{
 var c11ConnServer = append(append([]hv(nil), c11Conn...),
 	hv{"first-line-7-bytes", []string{"x-trace", "Upgrade"}, 1},
 	hv{"first-line-list-of-7-bytes", []string{"TE, foo", "keep-alive, upgrade"}, 1},
+	// (optional white space around a list element is SP / HTAB: RFC 7230 3.2.3 and section 7)
+	hv{"tab-after-comma", []string{"keep-alive,\tUpgrade"}, 1},
+	hv{"tabs-around", []string{"keep-alive\t,\t Upgrade\t"}, 1},
 )
 
 var c11UpgServer []hv
@@ -66,6 +69,7 @@ func init() {
 	c11UpgServer = append(append([]hv(nil), c11Upg...),
 		hv{"first-line-9-bytes", []string{"h2c, quic", "websocket"}, 1},
 		hv{"first-line-9-bytes-near-miss", []string{"websocke7", "WebSocket"}, 1},
+		hv{"tab-after-comma", []string{"h2c,\twebsocket"}, 1},
 	)
 }
 
@@ -152,6 +156,8 @@ var c11Sub = []spCase{
 	// that of its first occurrence
 	{"server-list-repeats-a-name", []string{"v1", "v2", "v1"}, []string{"v2, v1"}},
 	{"server-list-repeats-in-other-case", []string{"Chat", "b", "chat"}, []string{"b, chat"}},
+	{"tab-separated-offer", []string{"chat", "echo"}, []string{"echo,\tchat"}},
+	{"tabs-around-offer", []string{"v2", "v1"}, []string{"v1\t,\tv2\t"}},
 }
 
 func tokens(lines []string) []string {
@@ -433,8 +439,20 @@ func c11Wire(r *fw.R, d c11Desc) {
 		defer c.CloseNow()
 		ctx, cancel := context.WithTimeout(context.Background(), 10*time.Second)
 		defer cancel()
-		_, b, err := c.Read(ctx)
-		results <- got{msg: b, err: err, sub: c.Subprotocol()}
+		// everything up to the END message is reported: what was pipelined with the request, then what followed
+		var all []byte
+		for k := 0; k < 12; k++ {
+			_, b, err := c.Read(ctx)
+			if err != nil {
+				results <- got{msg: all, err: err, sub: c.Subprotocol()}
+				return
+			}
+			if string(b) == "END" {
+				break
+			}
+			all = append(append(all, b...), '|')
+		}
+		results <- got{msg: all, err: nil, sub: c.Subprotocol()}
 		c.Close(websocket.StatusNormalClosure, "")
 	})}
 	go srv.Serve(ln)
@@ -478,11 +496,25 @@ func c11Wire(r *fw.R, d c11Desc) {
 			req.WriteString("Content-Length: 0\r\n")
 		}
 		req.WriteString("\r\n")
-		payload := []byte(fmt.Sprintf("pipelined-%d-%x", i, rng.U64()))
-		frame := wire.Data(wire.OpText, true, payload).WithMask([4]byte{1, 2, 3, byte(i)})
+		// 1-3 messages travel in the same write as the request, 0-2 more and the END marker after the response
+		var payload, later []byte
+		npipe, nlater := 1+rng.Intn(3), rng.Intn(3)
 		pipelined := verdict != 0 || rng.Bool()
-		if pipelined {
-			req.Write(frame.Bytes())
+		for k := 0; k < npipe+nlater+1; k++ {
+			m := []byte(fmt.Sprintf("pipelined-%d-%d-%x", i, k, rng.U64()))
+			if k == npipe+nlater {
+				m = []byte("END")
+			} else {
+				payload = append(append(payload, m...), '|')
+			}
+			fb := wire.Data(wire.OpText, true, m).WithMask([4]byte{1, 2, byte(k), byte(i)}).Bytes()
+			if k < npipe {
+				if pipelined {
+					req.Write(fb)
+				}
+			} else {
+				later = append(later, fb...)
+			}
 		}
 		conn, err := ln.Dial()
 		if err != nil {
@@ -504,6 +536,9 @@ func c11Wire(r *fw.R, d c11Desc) {
 			conn.Close()
 			return
 		}
+		if resp.StatusCode == 101 {
+			conn.Write(later) // (whatever the verdict: a handler that upgraded reads up to the END marker)
+		}
 		switch verdict {
 		case 1:
 			r.Key("wire/upgraded/conn=%s/upg=%s/key=%s", cn.Name, up.Name, key.Name)
@@ -521,7 +556,7 @@ func c11Wire(r *fw.R, d c11Desc) {
 			select {
 			case g := <-results:
 				if g.err != nil || !bytes.Equal(g.msg, payload) {
-					r.Violate("C11/pipelined-frame-lost", fmt.Sprintf("%s: the frame sent in the same packet as the request was not delivered: msg=%q err=%v", what, g.msg, g.err), "")
+					r.Violate("C11/pipelined-frame-lost", fmt.Sprintf("%s: the messages sent in the same packet as the request and after the response were not delivered exactly once and in order: got=%q err=%v", what, g.msg, g.err), "")
 				} else {
 					r.Count("pipelined_frames_delivered", 1)
 				}
